@@ -263,7 +263,7 @@ func (w *Watcher) handleUnconfirmedEvents(ctx context.Context, logger *zap.Logge
 		unconfirmed, err := w.toUnconfirmedEvent(&contractEvent)
 		if err != nil {
 			logger.Error("failed to convert to unconfirmed event", zap.Error(err))
-			return nil, err
+			continue
 		}
 		if unconfirmed.msg.IsAttestTokenVAA() {
 			logger.Info("received a message", zap.String("txId", unconfirmed.TxId), zap.String("blockHash", unconfirmed.BlockHash), zap.String("type", "attest"))
